@@ -283,7 +283,7 @@ func requiredFamily(valid M) []struct {
 func init() {
 	checks["c10"] = func(id string) int {
 		r := newRun(id, "fault_enumeration")
-		r.Rule = "all requests of C07's product, plus every single-fault variant of the C09 corpus, plus the 'usable id' family {absent, null, empty string, number, object, relative reference, absolute IRI} x every inbox activity type and the 'required object/target absent or empty' family for both endpoints, requests whose body reader fails after 0/1/40 bytes, and scenarios drawn from the generators of C02 C03 C04 C06 C16 C17; a counting ResponseWriter and the (handled, error) pair are judged by the three-state outcome rule and by a status model (405/400/403/200/410/201+Location); non-trivial = handled request; distinct by (scenario, configuration, fault plan)"
+		r.Rule = "all requests of C07's product, plus every single-fault variant of the C09 corpus, plus the 'usable id' family {absent, null, empty string, number, object, relative reference, absolute IRI} x every inbox activity type and the 'required object/target absent or empty' family for both endpoints, requests whose body reader fails after 0/1/40 bytes, and scenarios drawn from the generators of C02 C03 C04 C06 C16 C17; a counting ResponseWriter and the (handled, error) pair are judged by the three-state outcome rule and by a status model (405/400/403/200/410/201+Location); required members given as null, [null] and lists of nulls; every body lacking a required member delivered into an inbox that already lists its id; non-trivial = handled request; distinct by (scenario, configuration, fault plan)"
 		r.Assumptions = []string{"a 401 written by the simulated application on denied authentication counts as the application's write, not the library's", "requests that panic are left to C11", "valid corpus bodies succeed in their worlds (checked fault-free)"}
 		if *replay != "" {
 			sc, err := readReplayScenario(*replay)
